@@ -181,6 +181,13 @@ func (i *interpreter) bind(fr *frame, src value, dst types.Type, path string) va
 			panic(bindErr{fmt.Sprintf("'%s' expected a map, got '%s'", path, kindName(raw))})
 		}
 		out := zero(dst).(structure)
+		if i.bindInit != nil {
+			// top level: decode into the existing struct (fields absent from the source keep their values)
+			if ex, ok := i.bindInit.(structure); ok && len(ex) == len(out) {
+				out = ex
+			}
+			i.bindInit = nil
+		}
 		for k := 0; k < u.NumFields(); k++ {
 			f := u.Field(k)
 			if !f.Exported() {
@@ -369,7 +376,9 @@ func init() {
 					panic(r)
 				}
 			}()
+			i.bindInit = load(pt.Elem(), target.v.(*value))
 			v := i.bind(fr, a[0], pt.Elem(), "")
+			i.bindInit = nil
 			store(pt.Elem(), target.v.(*value), v)
 			res = iface{}
 		}()
